@@ -1626,11 +1626,45 @@ class VM:
         }
         return self._for_receiver(
             methods.get(method, lambda *args: UNDEFINED),
-            self._make_array_method,
+            self._array_method_for,
             "Array",
             method,
-            lambda v: isinstance(v, JSArray),
+            lambda v: True,
         )
+
+    # Array methods that only read their receiver: through call/apply/bind they also
+    # work on array-likes (a string, a typed array, an object with a length)
+    _ARRAY_READERS = (
+        "slice", "join", "map", "filter", "forEach", "indexOf", "lastIndexOf", "find",
+        "findIndex", "some", "every", "includes", "reduce", "reduceRight", "concat",
+        "toString",
+    )  # fmt: skip
+
+    def _array_method_for(self, receiver: JSValue, method: str) -> Any:
+        """The array method for a receiver given to call/apply/bind."""
+        if isinstance(receiver, JSArray):
+            return self._make_array_method(receiver, method)
+        elements = None
+        if method in self._ARRAY_READERS:
+            if isinstance(receiver, str):
+                elements = list(receiver)
+            elif isinstance(receiver, JSTypedArray):
+                elements = [receiver.get_index(i) for i in range(receiver.length)]
+            elif type(receiver) is JSObject:
+                length = receiver.get("length")
+                if isinstance(length, (int, float)) and not isinstance(length, bool):
+                    count = max(0, to_integer(length))
+                    if count > MAX_ARRAY_LENGTH:
+                        raise JSRangeError("Invalid array length")
+                    elements = [receiver.get(str(i)) for i in range(count)]
+        if elements is None:
+            raise JSTypeError(
+                f"Array.prototype.{method} called on an incompatible receiver"
+            )
+        view = JSArray()
+        view._elements = elements
+        view._prototype = getattr(self.globals.get("Array"), "_prototype", None)
+        return self._make_array_method(view, method)
 
     @staticmethod
     def _for_receiver(fn, make, kind: str, method: str, accepts) -> Any:
